@@ -123,6 +123,8 @@ def local_kinematics(fn, resolver):
                 continue
             s = norm_src(v)
             fam = resolver.families(v)
+            # direct contribution calls: contr.gamma_F(...), contr.g_N(...)
+            fam |= {c.func.attr for c in ast.walk(v) if isinstance(c, ast.Call) and isinstance(c.func, ast.Attribute) and c.func.attr in (KIN_N | KIN_F)}
             if fam & KIN_N or "W_N.T" in s:
                 tags[name] = "N"
             elif fam & KIN_F or "W_F.T" in s:
